@@ -7,13 +7,15 @@ use metrique::unit_of_work::metrics;
 use metrique_aggregation::aggregate;
 use metrique_aggregation::aggregator::{Aggregate, KeyedAggregator};
 use metrique_aggregation::histogram::{Histogram, SortAndMerge};
-use metrique_aggregation::sink::{NonAggregatedSink, TeeSink};
+use metrique_aggregation::sink::{NonAggregatedSink, TeeSink, WorkerSink};
 use metrique_aggregation::traits::{AggregateSink, AggregateSinkRef, AggregateStrategy, FlushableSink, Key};
 use metrique_aggregation::value::{Distribution, Flatten, KeepLast, MergeOptions, Sum};
 use metrique_writer::test_util::{TestEntry, test_metric, to_test_entry};
 use metrique_writer::{Entry, EntrySink, Observation};
 use std::borrow::Cow;
+use std::sync::atomic::{AtomicBool, AtomicU64, Ordering};
 use std::sync::{Arc, Mutex};
+use std::time::{Duration, Instant};
 
 // ------------------------------------------------------------------------------------------ types under test
 
@@ -539,15 +541,191 @@ fn exec_embedded(case: &Sx) -> Sx {
     enc_agg(ty, &te)
 }
 
-pub fn exec(case: &Sx) -> (Sx, bool) {
+// ------------------------------------------------------------------------------------------ worker sink
+
+const FLUSH_MARK: u64 = u64::MAX;
+const TRACE_CAP: u64 = 20_000;
+
+/// The inner sink handed to WorkerSink: forwards to the real sink tree and records, on the worker thread,
+/// the calls it receives (ids of merged entries, flushes) and the batch boundaries of every leaf.
+pub struct Rec {
+    inner: DynS,
+    shared: Arc<RecShared>,
+}
+#[derive(Default)]
+pub struct RecShared {
+    leaves: Mutex<Vec<Leaf>>,
+    trace: Mutex<Vec<u64>>,
+    flushes: AtomicU64,
+    merges: AtomicU64,
+    dropped: AtomicBool,
+}
+impl AggregateSink<ItemEntry> for Rec {
+    fn merge(&mut self, e: ItemEntry) {
+        #[allow(deprecated)]
+        let id = e.last;
+        self.shared.merges.fetch_add(1, Ordering::SeqCst);
+        self.shared.trace.lock().unwrap().push(id);
+        self.inner.merge(e);
+    }
+}
+impl FlushableSink for Rec {
+    fn flush(&mut self) {
+        self.inner.flush();
+        let n = self.shared.flushes.fetch_add(1, Ordering::SeqCst);
+        let mut lv = self.shared.leaves.lock().unwrap();
+        let changed = lv.iter().any(|l| matches!(l, Leaf::Keyed(insp, marks) if insp.len() != *marks.last().unwrap()));
+        // a spinning worker (or a zero interval) must not fill the memory with empty batches: beyond the
+        // cap only flushes that emitted something are recorded
+        if n < TRACE_CAP || changed {
+            mark_flush(&mut lv);
+            self.shared.trace.lock().unwrap().push(FLUSH_MARK);
+        }
+    }
+}
+impl Drop for Rec {
+    fn drop(&mut self) {
+        self.shared.dropped.store(true, Ordering::SeqCst);
+    }
+}
+
+fn rt() -> tokio::runtime::Runtime {
+    tokio::runtime::Builder::new_current_thread().enable_time().build().unwrap()
+}
+
+static WORKER_BROKEN: AtomicBool = AtomicBool::new(false);
+
+type WSink = WorkerSink<ItemEntry, Rec>;
+type WGuard = metrique_aggregation::sink::CloseAndMergeOnDrop<Item, WSink>;
+
+fn interval_of(mode: u128) -> Duration {
+    match mode {
+        0 => Duration::from_secs(3600),
+        1 => Duration::ZERO,
+        _ => Duration::from_micros(300),
+    }
+}
+
+fn drop_empty(leaves: Sx) -> Sx {
+    Sx::L(
+        leaves
+            .list()
+            .iter()
+            .map(|l| if l.tag() == 0 { sx::tag(0, l.list()[1..].iter().filter(|b| !b.list().is_empty()).cloned().collect()) } else { l.clone() })
+            .collect(),
+    )
+}
+
+/// waits until the worker thread has returned (its inner sink was dropped); None when it has not within
+/// the deadline, with the number of flush calls seen during a further 20 ms
+fn await_exit(shared: &RecShared, deadline: Duration) -> Result<(), u64> {
+    let t0 = Instant::now();
+    while t0.elapsed() < deadline {
+        if shared.dropped.load(Ordering::SeqCst) {
+            return Ok(());
+        }
+        std::thread::sleep(Duration::from_micros(200));
+    }
+    let f0 = shared.flushes.load(Ordering::SeqCst);
+    std::thread::sleep(Duration::from_millis(20));
+    Err(shared.flushes.load(Ordering::SeqCst) - f0)
+}
+
+/// tag 3: one client (this thread) drives a WorkerSink through a script; see Codec.v for the actions
+fn exec_worker_det(case: &Sx, out_fail: &mut Vec<String>) -> Sx {
+    let mode = case.arg(2).num();
+    let shared = Arc::new(RecShared::default());
+    let mut leaves = vec![];
+    let tree = build_tree(case.arg(1), &mut leaves, &None);
+    *shared.leaves.lock().unwrap() = leaves;
+    let sink: WSink = WorkerSink::new(Rec { inner: tree, shared: shared.clone() }, interval_of(mode));
+    let mut handles: Vec<WSink> = vec![sink];
+    let mut guards: Vec<Option<WGuard>> = vec![];
+    let mut acks = 0u64;
+    let rt = rt();
+    for a in case.arg(3).list() {
+        match a.tag() {
+            0 => {
+                if let Some(hd) = handles.last() {
+                    hd.send(to_item(&dec_entry(a.arg(0))).close());
+                }
+            }
+            1 => {
+                if let Some(hd) = handles.last() {
+                    let ok = rt.block_on(async { tokio::time::timeout(Duration::from_secs(5), hd.flush()).await.is_ok() });
+                    if ok {
+                        acks += 1;
+                    } else {
+                        out_fail.push("flush() was not acknowledged within 5 s".to_string());
+                    }
+                }
+            }
+            2 => {
+                if let Some(hd) = handles.last() {
+                    let c = hd.clone();
+                    handles.push(c);
+                }
+            }
+            3 => {
+                handles.pop();
+            }
+            4 => {
+                if let Some(hd) = handles.last() {
+                    guards.push(Some(to_item(&dec_entry(a.arg(0))).close_and_merge(hd.clone())));
+                }
+            }
+            5 => {
+                let g = a.arg(0).num() as usize;
+                if let Some(Some(gd)) = guards.get_mut(g) {
+                    // a guard owns its handle, so it can always be mutated through DerefMut
+                    **gd = to_item(&dec_entry(a.arg(1)));
+                }
+            }
+            _ => {
+                let g = a.arg(0).num() as usize;
+                if let Some(slot) = guards.get_mut(g) {
+                    drop(slot.take());
+                }
+            }
+        }
+        // let the worker catch up so that batches do not depend on the OS schedule (mode 0: it only
+        // reacts to messages; mode 1 flushes after every entry anyway)
+    }
+    for g in guards.iter_mut() {
+        drop(g.take());
+    }
+    drop(handles);
+    let exited = match await_exit(&shared, Duration::from_secs(2)) {
+        Ok(()) => true,
+        Err(spins) => {
+            WORKER_BROKEN.store(true, Ordering::SeqCst);
+            out_fail.push(format!(
+                "worker thread still running 2 s after its last handle was dropped (inner sink never dropped; {} flush calls in the following 20 ms, {} in total)",
+                spins,
+                shared.flushes.load(Ordering::SeqCst)
+            ));
+            false
+        }
+    };
+    let lv = shared.leaves.lock().unwrap();
+    let enc = enc_leaves(0, &lv);
+    Sx::L(vec![if mode == 1 { drop_empty(enc) } else { enc }, sx::n(acks), sx::boolean(exited)])
+}
+
+pub fn exec(case: &Sx, fails: &mut Vec<String>) -> (Sx, bool) {
     let r = catch(|| match case.tag() {
         0 => exec_tree(case),
+        3 => exec_worker_det(case, fails),
         _ => exec_embedded(case),
     });
     let nontrivial = match case.tag() {
         0 => {
             let ops = case.arg(2).list();
             ops.iter().filter(|o| o.tag() != 1).count() >= 2 && ops.iter().any(|o| o.tag() == 1)
+        }
+        3 => {
+            let sc = case.arg(3).list();
+            sc.iter().filter(|a| matches!(a.tag(), 0 | 6)).count() >= 2
         }
         _ => case.arg(1).list().len() >= 2,
     };
@@ -643,6 +821,15 @@ fn describe(out: &mut Out, case: &Sx) {
             out.add("ops_merge", ops.iter().filter(|o| o.tag() == 0).count() as u64);
             out.add("ops_flush", flushes as u64);
         }
+        3 => {
+            let sc = case.arg(3).list();
+            out.count(&format!("worker_det_mode_{}", case.arg(2).num()));
+            out.count(&format!("worker_det_actions_{}", bucket(sc.len() as u64)));
+            out.count(&format!("worker_det_tree_{}", tree_name(case.arg(1))));
+            for a in sc {
+                out.count(match a.tag() { 0 => "wact_send", 1 => "wact_flush", 2 => "wact_clone", 3 => "wact_drop_handle", 4 => "wact_guard_new", 5 => "wact_guard_set", _ => "wact_guard_drop" });
+            }
+        }
         _ => {
             out.count(&format!("embedded_inserts_{}", bucket(case.arg(1).list().len() as u64)));
         }
@@ -671,9 +858,18 @@ pub fn run(ctx: &Ctx) {
     crate::common::quiet_panics();
     let mut out = Out::new(ctx, "");
     let emit = |out: &mut Out, case: Sx| {
+        if case.tag() == 3 && WORKER_BROKEN.load(Ordering::SeqCst) {
+            // every further worker case would leak another spinning thread and wait for its deadline
+            out.count("worker_cases_skipped_after_failure");
+            return;
+        }
         describe(out, &case);
-        let (imp, nt) = exec(&case);
+        let mut fails = vec![];
+        let (imp, nt) = exec(&case, &mut fails);
         out.case(&case, &imp, nt);
+        for f in fails {
+            out.fail(f, &case);
+        }
     };
     if let Some(p) = &ctx.replay {
         for line in std::fs::read_to_string(p).unwrap().lines().filter(|l| l.starts_with('(')) {
@@ -752,6 +948,67 @@ pub fn run(ctx: &Ctx) {
         let names = g.names(2);
         let es: Vec<Sx> = (0..len).map(|_| enc_entry(&g.entry(ty, &names, 2, big))).collect();
         emit(&mut out, sx::tag(1, vec![enc_shape(ty), Sx::L(es)]));
+    }
+    // worker sink, one client: scripts of sends, awaited flushes, handle clones/drops, guards
+    let nw = if ctx.tier_thorough { 1500 } else { 250 };
+    for i in 0..nw {
+        let mode = if i % 4 == 3 { 1u64 } else { 0 };
+        let nk = *g.rng.pick(&[1usize, 2, 4, 30]);
+        let names = g.names(nk);
+        let len = *g.rng.pick(&[0u64, 1, 3, 8, 25, 80]) + g.rng.below(4);
+        let tree = gen_tree(&mut g.rng);
+        let mut handles = 1u64;
+        let mut guards: Vec<bool> = vec![];
+        let mut sc = vec![];
+        for _ in 0..len {
+            let live: Vec<usize> = guards.iter().enumerate().filter(|(_, a)| **a).map(|(i, _)| i).collect();
+            let r = g.rng.below(20);
+            if handles == 0 {
+                // only guards can still act (they own handles); sometimes poke a dead handle stack
+                if let Some(&gi) = live.first() {
+                    if g.rng.chance(1, 2) {
+                        sc.push(sx::tag(6, vec![sx::n(gi as u64)]));
+                        guards[gi] = false;
+                    } else {
+                        sc.push(sx::tag(5, vec![sx::n(gi as u64), enc_entry(&g.entry(0, &names, 2, false))]));
+                    }
+                } else {
+                    break;
+                }
+                continue;
+            }
+            match r {
+                0..=8 => sc.push(sx::tag(0, vec![enc_entry(&g.entry(0, &names, 2, false))])),
+                9..=10 => sc.push(sx::tag(1, vec![])),
+                11 => {
+                    sc.push(sx::tag(2, vec![]));
+                    handles += 1;
+                }
+                12 => {
+                    // keep at least one plain handle most of the time
+                    if handles > 1 || g.rng.chance(1, 8) {
+                        sc.push(sx::tag(3, vec![]));
+                        handles -= 1;
+                    }
+                }
+                13..=15 => {
+                    sc.push(sx::tag(4, vec![enc_entry(&g.entry(0, &names, 2, false))]));
+                    guards.push(true);
+                }
+                16..=17 => {
+                    if let Some(&gi) = live.get(g.rng.below(live.len().max(1) as u64) as usize) {
+                        sc.push(sx::tag(5, vec![sx::n(gi as u64), enc_entry(&g.entry(0, &names, 2, false))]));
+                    }
+                }
+                _ => {
+                    if let Some(&gi) = live.get(g.rng.below(live.len().max(1) as u64) as usize) {
+                        sc.push(sx::tag(6, vec![sx::n(gi as u64)]));
+                        guards[gi] = false;
+                    }
+                }
+            }
+        }
+        emit(&mut out, sx::tag(3, vec![enc_shape(0), tree, sx::n(mode), Sx::L(sc)]));
     }
     out.finish("sink trees: every operation sequence up to the tier's depth over 4 entries on 3 keys + flush (exhaustive) on a 3-leaf tee, plus random histories (1-600 keys with collisions, flush density 1/3..1/1000, by-ref/owned merges, 5 tree shapes, 2 source types); embedded Aggregate: random insert lists. Non-trivial = at least two merges and one flush (tree) / two inserts (embedded); distinct by hash of the case");
 }
